@@ -3,6 +3,7 @@ package rules
 import (
 	"fmt"
 	"go/ast"
+	"go/constant"
 	"go/token"
 	"go/types"
 	"sort"
@@ -22,7 +23,7 @@ func init() {
 				"field (Node/Expression/pointer-to-node/slices thereof/block parameters' expressions, incl. promoted fields and the unexported catch node's children) " +
 				"to the visitor from exactly one call site that is unconditional, nil-guarded or inside a range over the slice; (C20.nil) a child field that package jet " +
 				"itself believes nullable (compared with nil, or initialised from a nil argument/zero-valued local at a constructor call) is only visited under a " +
-				"`!= nil` guard and never dereferenced unguarded; (C20.term) no helper hands the node it was called for back to the visitor; (C20.walk) Walk starts at t.Root. (C20.cases, continued) the parser's marker nodes (end, else, content, catch) are excluded on every path on which a parsed text-or-action node is appended to a list. (C20.walk, continued) every return of Walk lies behind the visit of t.Root and nothing of package jet looks at the tree first. (C20.cases, continued) no function of utils/visitor.go other than that default arm can panic explicitly. (C20.fields, continued) a child handed to VisitorContext.Visit (the dispatcher) instead of visitNode / Visitor.Visit is not counted as visited: the dispatcher descends into its children without showing the node to the visitor.",
+				"`!= nil` guard and never dereferenced unguarded; (C20.term) no helper hands the node it was called for back to the visitor; (C20.walk) Walk starts at t.Root. (C20.cases, continued) the parser's marker nodes (end, else, content, catch) are excluded on every path on which a parsed text-or-action node is appended to a list. (C20.walk, continued) every return of Walk lies behind the visit of t.Root and nothing of package jet looks at the tree first. (C20.cases, continued) no function of utils/visitor.go other than that default arm can panic explicitly. (C20.fields, continued) a child handed to VisitorContext.Visit (the dispatcher) instead of visitNode / Visitor.Visit is not counted as visited: the dispatcher descends into its children without showing the node to the visitor. (C20.cases, dispatch form) Visit is interpreted for every node type the parser constructs — type switches over the node, bool-valued dispatch helpers that receive the node, `return true/false`, ||, &&, !, if — and must end, for each type, in an arm naming the type and in a plain return; the panics of the dispatch are then unreachable for constructed types. (C20.fields, continued) a plain index walk `for i := 0; i < len(L); i++ { … L[i] … }` and a local holding a child list count like a range over the list. (C20.walk attached-once) in every parser function, a local node that was handed to a node constructor is not handed to one again unless the variable was assigned in between: the tree stays a tree when a variable outlives one pass of a parsing loop.",
 			NotDecided: "that the parser builds trees only from these constructors is itself checked (node composite literals outside PARSE are reported); nothing else of substance.",
 			Assumptions: []string{
 				"a visitor descends by calling VisitorContext.Visit on the node it was given (the property's premise)",
@@ -133,32 +134,35 @@ func runC20(c *an.Ctx) {
 	}
 	c.Expect("C20.cases", "node types constructed by the parser", len(constructed), 30)
 
-	// ---- the cases of Visit's type switch
-	var ts *ast.TypeSwitchStmt
-	an.InspectOwn(visit, func(n ast.Node) bool {
-		if s, ok := n.(*ast.TypeSwitchStmt); ok && ts == nil {
-			ts = s
-		}
-		return true
-	})
-	if ts == nil {
-		c.Anchor("C20.cases", "type switch in VisitorContext.Visit")
-		return
-	}
+	// ---- the cases of Visit's dispatch.  Visit is interpreted for each node type the parser constructs: type switches
+	// over the node select the arm naming the type (or the default arm), calls of bool-valued dispatch helpers of the
+	// package that receive the node are interpreted in turn, `return true/false`, `||`, `&&`, `!` and `if` over such
+	// calls are evaluated; everything else a case does is left to C20.fields.  The type must end in an arm that names
+	// it, and the interpretation must end in a return, not in the panic that reports an unexpected node.
 	uinfo := p.Utils.TypesInfo
 	cases := map[*types.Named]*ast.CaseClause{}
-	for _, cl := range ts.Body.List {
-		cc := cl.(*ast.CaseClause)
-		if cc.List == nil {
-			// default arm: must not return normally (it reports the unexpected node)
+	dispatchFns := map[*an.Fn]bool{visit: true}
+	outcome := map[*types.Named]string{}
+	var allNamed []*types.Named
+	for n := range constructed {
+		allNamed = append(allNamed, n)
+	}
+	sort.Slice(allNamed, func(i, j int) bool { return allNamed[i].Obj().Name() < allNamed[j].Obj().Name() })
+	for _, named := range allNamed {
+		d := &c20dispatch{p: p, info: uinfo, target: named, fns: dispatchFns}
+		ctrl, _ := d.run(visit, an.Param(visit, 0), 0)
+		outcome[named] = ctrl
+		if d.arm != nil {
+			cases[named] = d.arm
+		}
+	}
+	// arms must not panic
+	seenArm := map[*ast.CaseClause]bool{}
+	for _, cc := range cases {
+		if seenArm[cc] {
 			continue
 		}
-		for _, te := range cc.List {
-			if named := an.NamedOf(uinfo.Types[te].Type); named != nil {
-				cases[named] = cc
-			}
-		}
-		// a non-default arm must not panic
+		seenArm[cc] = true
 		ast.Inspect(cc, func(n ast.Node) bool {
 			if call, ok := n.(*ast.CallExpr); ok && an.IsCallTo(uinfo, call, "builtin.panic") {
 				c.Bad("C20.cases", "case-panics:"+an.Str(cc.List[0]), call.Pos(), nil, "a case of Visit panics")
@@ -168,7 +172,9 @@ func runC20(c *an.Ctx) {
 	}
 
 	// … and nothing else in package utils panics: the helpers the cases delegate to raise nothing of their
-	// own (a depth limit, a "cannot happen" check) for a tree the parser accepted
+	// own (a depth limit, a "cannot happen" check) for a tree the parser accepted.  The panics of the dispatch
+	// itself (Visit and the bool-valued helpers it is split into) are the report of an unexpected node: the
+	// interpretation above shows that no constructed type reaches them.
 	nPanic := 0
 	for _, g := range p.Units() {
 		if g.Pkg != p.Utils || g.Body == nil {
@@ -176,20 +182,15 @@ func runC20(c *an.Ctx) {
 		}
 		for _, call := range p.CallsIn(g, "builtin.panic") {
 			nPanic++
-			inDefault := false
-			if g == visit {
-				for _, enc := range an.EnclosingStmts(g, call) {
-					if cc, ok := enc.(*ast.CaseClause); ok && cc.List == nil {
-						inDefault = true
-					}
-				}
-			}
-			if !inDefault {
+			if !dispatchFns[g] && !dispatchFns[g.Root()] {
 				c.Bad("C20.cases", g.Name+"/panics", call.Pos(), nil, "%s panics (%s): the walk of a template the parser accepted can end in a panic", g.Name, an.Str(call))
 			}
 		}
 	}
-	c.Note("panic calls in package utils: %d (the default arm of Visit)", nPanic)
+	c.Note("panic calls in package utils: %d (the report of an unexpected node in Visit's dispatch)", nPanic)
+	if nPanic == 0 {
+		c.Note("Visit's dispatch has no panic: an unknown node type is skipped silently")
+	}
 
 	var names []*types.Named
 	for n := range constructed {
@@ -212,6 +213,10 @@ func runC20(c *an.Ctx) {
 		if cc == nil {
 			c.Bad("C20.cases", "type:"+name, constructed[named], nil,
 				"node type *jet.%s is built by the parser but VisitorContext.Visit has no case for it: Walk panics (\"unexpected node\") on any template containing it", name)
+			continue
+		}
+		if outcome[named] != "return" {
+			c.Bad("C20.cases", "type:"+name, cc.Pos(), nil, "Visit has a case for *jet.%s, but its dispatch does not end in a plain return for that type (%s): Walk panics or the outcome cannot be followed", name, outcome[named])
 			continue
 		}
 		c.OK("C20.cases", "type:"+name, cc.Pos(), "case *jet.%s present", name)
@@ -326,6 +331,7 @@ func runC20(c *an.Ctx) {
 		}
 	}
 	c20noShare(c)
+	c20attachedOnce(c)
 	c20markers(c)
 	c.Check(okWalk, "C20.walk", "utils.Walk/start", walk.Pos(), "Walk hands t.Root to Visitor.Visit", "Walk does not start the traversal at t.Root through Visitor.Visit")
 }
@@ -892,6 +898,8 @@ func (r *c20) collect(h *an.Fn, prefix string, guards []string, seen map[*an.Fn]
 	// range variables: ident object → path of the element
 	rangeVar := map[types.Object]string{}
 	rangeOf := map[types.Object]*ast.RangeStmt{}
+	indexVar := map[types.Object]string{} // index variable of a plain walk over a child list → path of the list
+	aliasBusy := map[types.Object]bool{}
 	var out []visitCall
 
 	// pathOf maps an argument expression to a child path (relative to the case's node), ok=false if unrelated
@@ -905,6 +913,23 @@ func (r *c20) collect(h *an.Fn, prefix string, guards []string, seen map[*an.Fn]
 			}
 			if pth, ok := rangeVar[o]; ok {
 				return pth, true
+			}
+			// a local that only holds a child (nodes := listNode.Nodes)
+			if v, isVar := o.(*types.Var); isVar && !v.IsField() && v != param && !aliasBusy[o] {
+				if defs := an.LocalDefs(h, v); len(defs) == 1 && defs[0] != nil {
+					aliasBusy[o] = true
+					defer delete(aliasBusy, o)
+					return pathOf(defs[0])
+				}
+			}
+		case *ast.IndexExpr:
+			// list[i] inside `for i := 0; i < len(list); i++`
+			if id, ok := an.Unparen(x.Index).(*ast.Ident); ok {
+				if lp, isIdx := indexVar[an.ObjOf(info, id)]; isIdx {
+					if pth, ok := pathOf(x.X); ok && pth == lp {
+						return pth + "[]", true
+					}
+				}
 			}
 		case *ast.UnaryExpr:
 			if x.Op == token.AND {
@@ -938,7 +963,17 @@ func (r *c20) collect(h *an.Fn, prefix string, guards []string, seen map[*an.Fn]
 		if !ok || is.Init != nil || is.Else != nil || len(is.Body.List) != 1 {
 			return "", false
 		}
-		if ret, ok := is.Body.List[0].(*ast.ReturnStmt); !ok || len(ret.Results) != 0 {
+		switch leave := is.Body.List[0].(type) {
+		case *ast.ReturnStmt:
+			if len(leave.Results) != 0 {
+				return "", false
+			}
+		case *ast.BranchStmt:
+			// `if x.F == nil { continue }` in a loop body protects the rest of the body in the same way
+			if leave.Tok != token.CONTINUE || leave.Label != nil {
+				return "", false
+			}
+		default:
 			return "", false
 		}
 		b, ok := an.Unparen(is.Cond).(*ast.BinaryExpr)
@@ -1068,7 +1103,14 @@ func (r *c20) collect(h *an.Fn, prefix string, guards []string, seen map[*an.Fn]
 				}
 			}
 		case *ast.ForStmt:
-			walk(s.Body, guards, "inside a for loop")
+			// `for i := 0; i < len(<child list>); i++` whose body does not assign i visits every element, like range
+			if iv, lp, ok := r.plainWalk(h, s, pathOf); ok {
+				indexVar[iv] = lp
+				walk(s.Body, guards, bad)
+				delete(indexVar, iv)
+			} else {
+				walk(s.Body, guards, "inside a for loop")
+			}
 		case *ast.SwitchStmt:
 			walk(s.Body, guards, "inside a switch")
 		case *ast.CaseClause:
@@ -1162,11 +1204,25 @@ func c20markers(c *an.Ctx) {
 				continue
 			}
 			fromAny := false
-			for _, d := range an.LocalDefs(f, an.ObjOf(info, id)) {
-				if dc, ok := an.Unparen(d).(*ast.CallExpr); ok && d != nil && an.CalleeName(info, dc) == "(*jet.Template).textOrAction" {
-					fromAny = true
+			var fromParse func(o types.Object, depth int)
+			fromParse = func(o types.Object, depth int) {
+				if o == nil || depth > 3 {
+					return
+				}
+				for _, d := range an.LocalDefs(f, o) {
+					if d == nil {
+						continue
+					}
+					if dc, ok := an.Unparen(d).(*ast.CallExpr); ok && an.CalleeName(info, dc) == "(*jet.Template).textOrAction" {
+						fromAny = true
+					}
+					// (a helper's parameter is defined by what its call site passes)
+					if did, ok := an.Unparen(d).(*ast.Ident); ok {
+						fromParse(an.ObjOf(info, did), depth+1)
+					}
 				}
 			}
+			fromParse(an.ObjOf(info, id), 0)
 			if fromAny {
 				sites = append(sites, call)
 				argOf[call] = id
@@ -1309,4 +1365,275 @@ func c20noShare(c *an.Ctx) {
 	} else {
 		c.Bad("C20.walk", "(*Template).parseControl/no-shared-child", f.Pos(), trail, "parseControl can return an expression that is (part of) the assignment it returns as the branch's Set: the subtree hangs below two fields of the if/range node and the visitor reaches it twice")
 	}
+}
+
+// plainWalk: s is `for i := 0; i < len(L); i++ { … }` with L a child list (pathOf) and no other assignment to i.
+func (r *c20) plainWalk(h *an.Fn, s *ast.ForStmt, pathOf func(ast.Expr) (string, bool)) (types.Object, string, bool) {
+	info := h.Info()
+	init, ok := s.Init.(*ast.AssignStmt)
+	if !ok || len(init.Lhs) != 1 || len(init.Rhs) != 1 || an.Str(init.Rhs[0]) != "0" {
+		return nil, "", false
+	}
+	id, ok := init.Lhs[0].(*ast.Ident)
+	if !ok {
+		return nil, "", false
+	}
+	iv := an.ObjOf(info, id)
+	cond, ok := an.Unparen(s.Cond).(*ast.BinaryExpr)
+	if !ok || s.Cond == nil || cond.Op != token.LSS {
+		return nil, "", false
+	}
+	if cid, ok := an.Unparen(cond.X).(*ast.Ident); !ok || an.ObjOf(info, cid) != iv {
+		return nil, "", false
+	}
+	call, ok := an.Unparen(cond.Y).(*ast.CallExpr)
+	if !ok || an.CalleeName(info, call) != "builtin.len" || len(call.Args) != 1 {
+		return nil, "", false
+	}
+	lp, ok := pathOf(call.Args[0])
+	if !ok {
+		return nil, "", false
+	}
+	post, ok := s.Post.(*ast.IncDecStmt)
+	if !ok || post.Tok != token.INC {
+		return nil, "", false
+	}
+	if pid, ok := an.Unparen(post.X).(*ast.Ident); !ok || an.ObjOf(info, pid) != iv {
+		return nil, "", false
+	}
+	assigned := false
+	ast.Inspect(s.Body, func(n ast.Node) bool {
+		switch a := n.(type) {
+		case *ast.AssignStmt:
+			for _, l := range a.Lhs {
+				if lid, ok := an.Unparen(l).(*ast.Ident); ok && an.ObjOf(info, lid) == iv {
+					assigned = true
+				}
+			}
+		case *ast.IncDecStmt:
+			if lid, ok := an.Unparen(a.X).(*ast.Ident); ok && an.ObjOf(info, lid) == iv {
+				assigned = true
+			}
+		case *ast.BranchStmt:
+			if a.Tok == token.BREAK || a.Tok == token.GOTO {
+				assigned = true
+			}
+		}
+		return true
+	})
+	if assigned {
+		return nil, "", false
+	}
+	return iv, lp, true
+}
+
+// c20dispatch interprets the visitor's dispatch for one concrete node type (see runC20).
+type c20dispatch struct {
+	p      *an.Prog
+	info   *types.Info
+	target *types.Named
+	fns    map[*an.Fn]bool    // functions the dispatch runs through
+	arm    *ast.CaseClause    // the non-default arm that names the type
+	alias  map[types.Object]bool
+	vals   map[types.Object]string // bool locals holding the result of a dispatch helper
+}
+
+// run interprets fn with its parameter `node` holding a value of the target type; it returns how the function ends
+// ("return", "panic", "unknown") and, for a bool-valued function, the value returned ("true", "false", "").
+func (d *c20dispatch) run(fn *an.Fn, node *types.Var, depth int) (string, string) {
+	if fn == nil || fn.Body == nil || node == nil || depth > 4 {
+		return "unknown", ""
+	}
+	d.fns[fn] = true
+	saved := d.alias
+	d.alias = map[types.Object]bool{node: true}
+	defer func() { d.alias = saved }()
+	ctrl, val := d.stmts(fn.Body.List, depth)
+	if ctrl == "next" {
+		ctrl = "return"
+	}
+	return ctrl, val
+}
+
+func (d *c20dispatch) stmts(list []ast.Stmt, depth int) (string, string) {
+	for _, s := range list {
+		ctrl, val := d.stmt(s, depth)
+		if ctrl != "next" {
+			return ctrl, val
+		}
+	}
+	return "next", ""
+}
+
+func (d *c20dispatch) isNode(e ast.Expr) bool {
+	id, ok := an.Unparen(e).(*ast.Ident)
+	return ok && d.alias[an.ObjOf(d.info, id)]
+}
+
+func (d *c20dispatch) stmt(s ast.Stmt, depth int) (string, string) {
+	switch s := s.(type) {
+	case *ast.BlockStmt:
+		return d.stmts(s.List, depth)
+	case *ast.EmptyStmt:
+		return "next", ""
+	case *ast.ExprStmt:
+		if call, ok := s.X.(*ast.CallExpr); ok {
+			if an.IsCallTo(d.info, call, "builtin.panic") {
+				return "panic", ""
+			}
+			return "next", "" // a visit helper: C20.fields
+		}
+		return "unknown", ""
+	case *ast.ReturnStmt:
+		switch len(s.Results) {
+		case 0:
+			return "return", ""
+		case 1:
+			return "return", d.cond(s.Results[0], depth)
+		}
+		return "unknown", ""
+	case *ast.AssignStmt:
+		// ok := vc.visitStatement(node) (also the form the checker's hoisting gives a call in a condition)
+		if len(s.Lhs) == 1 && len(s.Rhs) == 1 {
+			if id, ok := s.Lhs[0].(*ast.Ident); ok {
+				if o := an.ObjOf(d.info, id); o != nil {
+					if d.vals == nil {
+						d.vals = map[types.Object]string{}
+					}
+					d.vals[o] = d.cond(s.Rhs[0], depth)
+					if d.vals[o] == "panic" {
+						return "panic", ""
+					}
+					return "next", ""
+				}
+			}
+		}
+		return "unknown", ""
+	case *ast.IfStmt:
+		if s.Init != nil {
+			if ctrl, _ := d.stmt(s.Init, depth); ctrl != "next" {
+				return ctrl, ""
+			}
+		}
+		switch d.cond(s.Cond, depth) {
+		case "true":
+			return d.stmts(s.Body.List, depth)
+		case "false":
+			if s.Else == nil {
+				return "next", ""
+			}
+			return d.stmt(s.Else, depth)
+		}
+		return "unknown", ""
+	case *ast.TypeSwitchStmt:
+		// switch x := node.(type) / switch node.(type)
+		var subject ast.Expr
+		var bound bool
+		switch a := s.Assign.(type) {
+		case *ast.AssignStmt:
+			if len(a.Rhs) == 1 {
+				if ta, ok := an.Unparen(a.Rhs[0]).(*ast.TypeAssertExpr); ok {
+					subject, bound = ta.X, true
+				}
+			}
+		case *ast.ExprStmt:
+			if ta, ok := an.Unparen(a.X).(*ast.TypeAssertExpr); ok {
+				subject = ta.X
+			}
+		}
+		if s.Init != nil || subject == nil || !d.isNode(subject) {
+			return "unknown", ""
+		}
+		var chosen, def *ast.CaseClause
+		for _, cl := range s.Body.List {
+			cc := cl.(*ast.CaseClause)
+			if cc.List == nil {
+				def = cc
+				continue
+			}
+			for _, te := range cc.List {
+				t := d.info.Types[te].Type
+				if ptr, ok := t.(*types.Pointer); ok && an.NamedOf(ptr.Elem()) == d.target {
+					chosen = cc
+				}
+			}
+		}
+		if chosen != nil {
+			if d.arm == nil {
+				d.arm = chosen
+			}
+		} else {
+			chosen = def
+		}
+		if chosen == nil {
+			return "next", ""
+		}
+		if bound {
+			if o := d.info.Implicits[chosen]; o != nil {
+				d.alias[o] = true
+			}
+		}
+		return d.stmts(chosen.Body, depth)
+	}
+	return "unknown", ""
+}
+
+// cond evaluates a bool expression of the dispatch: "true", "false" or "" (not followed).
+func (d *c20dispatch) cond(e ast.Expr, depth int) string {
+	e = an.Unparen(e)
+	if tv, ok := d.info.Types[e]; ok && tv.Value != nil && tv.Value.Kind() == constant.Bool {
+		if constant.BoolVal(tv.Value) {
+			return "true"
+		}
+		return "false"
+	}
+	switch x := e.(type) {
+	case *ast.Ident:
+		if v, ok := d.vals[an.ObjOf(d.info, x)]; ok {
+			return v
+		}
+	case *ast.UnaryExpr:
+		if x.Op == token.NOT {
+			switch d.cond(x.X, depth) {
+			case "true":
+				return "false"
+			case "false":
+				return "true"
+			}
+		}
+	case *ast.BinaryExpr:
+		if x.Op == token.LOR || x.Op == token.LAND {
+			l := d.cond(x.X, depth)
+			if l == "" {
+				return ""
+			}
+			if (x.Op == token.LOR) == (l == "true") {
+				return l // short circuit
+			}
+			return d.cond(x.Y, depth)
+		}
+	case *ast.CallExpr:
+		g := d.p.FnByObj[an.Callee(d.info, x)]
+		if g == nil || g.Body == nil || g.Pkg != d.p.Utils || g.Sig == nil || g.Sig.Results().Len() != 1 {
+			return ""
+		}
+		var param *types.Var
+		for i, a := range x.Args {
+			if d.isNode(a) && i < g.Sig.Params().Len() {
+				param = g.Sig.Params().At(i)
+			}
+		}
+		if param == nil {
+			return ""
+		}
+		ctrl, val := d.run(g, param, depth+1)
+		if ctrl != "return" {
+			if ctrl == "panic" {
+				return "panic"
+			}
+			return ""
+		}
+		return val
+	}
+	return ""
 }
